@@ -301,6 +301,10 @@ class TBRDiagnostics(object):
       else:
         correlations[geo_id] = corr
 
+    if not correlations:
+      # No geo has a defined correlation: there is no bound to compute.
+      return noisy_geos
+
     corr_bound = self._correlation_bound(list(correlations.values()),
                                          iqr_coef=iqr_coef)
     threshold = min(max_threshold, corr_bound)
